@@ -371,6 +371,25 @@ func runC10(c *mon.Ctx) {
 						judge(fmt.Sprintf("flip-slot@L%d", min(ft.L, 3)), srv, got, err, true)
 					}
 				}
+				// the SAME reader object used twice: an honest first read, then the tile goes bad
+				for ti, ft := range reqs {
+					if n > 64 && r.IntN(3) != 0 {
+						continue
+					}
+					m := muts[r.IntN(3)]
+					srv := &tileSrv{h: h, n: n, ref: ref, fault: map[tlog.Tile]func([]byte) []byte{}}
+					hr := tlog.TileHashReader(tree, srv)
+					var got []tlog.Hash
+					var err error
+					c.Guard(id, func() any { return set.idx }, func() { got, err = hr.ReadHashes(set.idx) })
+					if err != nil {
+						break
+					}
+					srv.fault[ft] = func(d []byte) []byte { return m.f(r, d, func() []byte { return nil }) }
+					srv.requested, srv.savedBad, srv.savedN = nil, nil, 0
+					c.Guard(id, func() any { return set.idx }, func() { got, err = hr.ReadHashes(set.idx) })
+					judge(fmt.Sprintf("second-read-on-same-reader:%s@pos%d", m.name, min(ti, 3)), srv, got, err, true)
+				}
 				// pairs of faulted tiles
 				if len(reqs) >= 2 {
 					for k := 0; k < 3; k++ {
